@@ -401,9 +401,10 @@ func (r *trRun) oneOnOne() {
 			from peer.ID
 			data string
 		}
-		recv := map[*sNode]chan got{a: make(chan got, 64), b: make(chan got, 64)}
+		c := &sNode{net: net, id: newPeerID(fmt.Sprintf("C3-%d-%d", k, rng.Int()))}
+		recv := map[*sNode]chan got{a: make(chan got, 64), b: make(chan got, 64), c: make(chan got, 64)}
 		chans := map[*sNode]iface.DirectChannel{}
-		for _, n := range []*sNode{a, b} {
+		for _, n := range []*sNode{a, b, c} {
 			n := n
 			bus := eventbus.NewBus()
 			em, _ := pubsub.NewPayloadEmitter(bus)
@@ -432,9 +433,31 @@ func (r *trRun) oneOnOne() {
 		go func() { errs <- chans[a].Connect(store1, b.id) }()
 		go func() { errs <- chans[a].Connect(store2, b.id) }()
 		go func() { errs <- chans[b].Connect(ctx, a.id) }()
+		connectBound := time.After(20 * time.Second)
 		for i := 0; i < 3; i++ {
-			if err := <-errs; err != nil {
-				r.res.Inconclusive = append(r.res.Inconclusive, "oneonone connect: "+err.Error())
+			select {
+			case err := <-errs:
+				if err != nil {
+					r.res.Inconclusive = append(r.res.Inconclusive, "oneonone connect: "+err.Error())
+					return
+				}
+			case <-connectBound:
+				// Connect waits until the other end shows up on the pairwise topic: it waits for ever when the two ends
+				// subscribe to different names
+				net.mu.Lock()
+				topics := append([]string{}, net.topics...)
+				net.mu.Unlock()
+				distinct := map[string]bool{}
+				for _, t := range topics {
+					distinct[t] = true
+				}
+				if len(distinct) > 1 {
+					r.violate(k, "channel-name", "the two ends of a pairwise channel derived different channel names (Connect never returns)", nil, topics)
+				} else {
+					r.res.Inconclusive = append(r.res.Inconclusive, "oneonone connect: no return within 20 s")
+				}
+				close1()
+				close2()
 				return
 			}
 		}
@@ -540,6 +563,64 @@ func (r *trRun) oneOnOne() {
 		case <-time.After(2 * time.Second):
 			r.violate(k, "pairwise", "after the stores that connected first were closed (their contexts ended) a payload sent by the remote peer over the pairwise channel is never delivered, although the instance and a third store connected to the same peer are open", late, nil)
 		}
+		// a third peer with a channel of its own: every pair derives one name, whatever names were derived before
+		pairs := [][2]*sNode{{a, c}, {c, a}, {b, c}, {c, b}}
+		errs3 := make(chan error, len(pairs))
+		ctx3, cancel3 := context.WithTimeout(ctx, 20*time.Second)
+		for _, pr := range pairs {
+			pr := pr
+			go func() { errs3 <- chans[pr[0]].Connect(ctx3, pr[1].id) }()
+		}
+		failed := false
+		for range pairs {
+			if err := <-errs3; err != nil {
+				failed = true
+			}
+		}
+		if failed {
+			net.mu.Lock()
+			all := append([]string{}, net.topics...)
+			net.mu.Unlock()
+			distinct := map[string]bool{}
+			for _, t := range all {
+				distinct[t] = true
+			}
+			if len(distinct) != 3 {
+				r.violate(k, "channel-name", fmt.Sprintf("three peers connected pairwise subscribe to %d distinct channel names instead of 3: some pair does not derive the same name at both ends", len(distinct)), 3, all)
+			} else {
+				r.res.Inconclusive = append(r.res.Inconclusive, "oneonone connect (three peers): no return within 20 s")
+			}
+			cancel3()
+			close3()
+			for _, ch := range chans {
+				_ = ch.Close()
+			}
+			continue
+		}
+		r.res.Comparisons++
+		for _, pr := range pairs {
+			data := fmt.Sprintf("three-%s-%x", pr[0].id.String()[len(pr[0].id.String())-4:], rng.Int63())
+			if err := chans[pr[0]].Send(ctx, pr[1].id, []byte(data)); err != nil {
+				r.violate(k, "pairwise", "Send failed: "+err.Error(), nil, nil)
+				continue
+			}
+			select {
+			case g := <-recv[pr[1]]:
+				if g.data != data || g.from != pr[0].id {
+					r.violate(k, "pairwise", "among three peers a payload reached a peer it was not sent to, or changed, or misattributed", data+" from "+pr[0].id.String(), g.data+" from "+g.from.String())
+				}
+			case <-time.After(2 * time.Second):
+				r.violate(k, "pairwise", "among three peers a payload sent over a pairwise channel is never delivered to the peer it was sent to", data, nil)
+			}
+		}
+		for _, n := range []*sNode{a, b, c} {
+			select {
+			case g := <-recv[n]:
+				r.violate(k, "pairwise", fmt.Sprintf("among three peers a peer received a payload it was not sent (%q)", g.data), nil, g.from.String())
+			case <-time.After(10 * time.Millisecond):
+			}
+		}
+		cancel3()
 		close3()
 		for _, c := range chans {
 			_ = c.Close()
